@@ -51,8 +51,8 @@ func c20Expected(name string, model map[string]string, args []string, opts inter
 	case "?":
 		return "0", true
 	case "-":
-		s := opts.String()
-		return s, s != ""
+		// set even when no option is on (only $! can be unset)
+		return opts.String(), true
 	case "$":
 		return strconv.Itoa(os.Getpid()), true
 	case "!":
@@ -74,11 +74,21 @@ func c20Expected(name string, model map[string]string, args []string, opts inter
 }
 
 func checkC20(c c20Case) error {
+	os.Setenv("1", "from-the-environment")
+	os.Setenv("@", "from-the-environment")
+	os.Setenv("c20_ordinary", "v")
 	env := interp.NewExecEnv("sh", c.Args...)
 	env.Opts = interp.Option(c.Opts)
 	env.Aliases["ll"] = "ls -l"
 	model := map[string]string{}
 	env.Walk(func(v interp.Var) { model[v.Name] = v.Value })
+	// the process environment of the check contains entries named like a
+	// positional and a special parameter: they are not variables
+	for n := range model {
+		if c20Special(n) {
+			return fmt.Errorf("a fresh environment reports a variable named %q (taken from the process environment): Walk must only report variables", n)
+		}
+	}
 	argsSnap := oracle.Snapshot(env.Args)
 	aliasSnap := oracle.Snapshot(env.Aliases)
 	optsSnap := env.Opts
